@@ -272,3 +272,27 @@ M("C16", "list-identity-no-close", CD, "        identity = plc._list_identity()\
 M("C16", "ip-3", CT, "return ipaddress.IPv4Address(cls._stream_read(stream, 4)).exploded", "return ipaddress.IPv4Address(cls._stream_read(stream, 3)).exploded", ["D16.1"])
 M("C16", "state-uint", CT, "        USINT(\"state\"),", "        UINT(\"state\"),", ["D16.1"])
 M("C16", "product-type-vendor-table", CT, "        values[\"product_type\"] = PRODUCT_TYPES.get(values[\"product_type\"], \"UNKNOWN\")\n        values[\"vendor\"] = VENDORS.get(values[\"vendor\"], \"UNKNOWN\")\n        values[\"serial\"] = f\"{values['serial']:08x}\"\n\n        return values\n\n    @classmethod\n    def _encode", "        values[\"product_type\"] = VENDORS.get(values[\"product_type\"], \"UNKNOWN\")\n        values[\"vendor\"] = VENDORS.get(values[\"vendor\"], \"UNKNOWN\")\n        values[\"serial\"] = f\"{values['serial']:08x}\"\n\n        return values\n\n    @classmethod\n    def _encode", ["D16.2"])
+
+# ------------------------------------------------------------------ C18
+M("C18", "true-division", SLC, "        element_number = bit_position // 16\n        sub_element = bit_position % 16", "        element_number = bit_position / 16\n        sub_element = bit_position - (element_number * 16)", ["D18.1"])
+M("C18", "mod-15", SLC, "        sub_element = bit_position % 16", "        sub_element = bit_position % 15", ["D18.1"])
+M("C18", "search-again", SLC, "    t = LFBN_RE.fullmatch(tag)", "    t = LFBN_RE.search(tag)", ["D18.2"])
+M("C18", "match-unanchored", SLC, "    t = A_RE.fullmatch(tag)", "    t = A_RE.match(tag)", ["D18.2"])
+M("C18", "file-256", SLC, "    t = ST_RE.fullmatch(tag)\n    if (\n        t\n        and (1 <= int(t.group(\"file_number\")) <= 255)", "    t = ST_RE.fullmatch(tag)\n    if (\n        t\n        and (1 <= int(t.group(\"file_number\")) <= 256)", ["D18.3"])
+M("C18", "bit-16", SLC, "                (1 <= int(t.group(\"file_number\")) <= 255)\n                and (0 <= int(t.group(\"element_number\")) <= 255)\n                and (0 <= int(t.group(\"sub_element\")) <= 15)", "                (1 <= int(t.group(\"file_number\")) <= 255)\n                and (0 <= int(t.group(\"element_number\")) <= 255)\n                and (0 <= int(t.group(\"sub_element\")) <= 16)", ["D18.3"])
+M("C18", "no-element-guard", SLC, "            if (1 <= int(t.group(\"file_number\")) <= 255) and (\n                0 <= int(t.group(\"element_number\")) <= 255\n            ):", "            if (1 <= int(t.group(\"file_number\")) <= 255):", ["D18.3"])
+M("C18", "new-letter-without-rows", SLC, 'r"(?P<file_type>[LFBN])(?P<file_number>\\d{1,3})"', 'r"(?P<file_type>[LFBNQ])(?P<file_number>\\d{1,3})"', ["D18.4"])
+M("C18", "n-size-4", PCCC, '    "N": 2,', '    "N": 4,', ["D18.4"])
+M("C18", "f-code", PCCC, '    "F": b"\\x8a",', '    "F": b"\\x8b",', ["D18.4"])
+M("C18", "write-swaps-file-type", SLC, "            USINT.encode(_tag[\"data_size\"] * _tag[\"element_count\"]),\n            USINT.encode(int(_tag[\"file_number\"])),\n            PCCC_DATA_TYPE[_tag[\"file_type\"]],", "            USINT.encode(_tag[\"data_size\"] * _tag[\"element_count\"]),\n            PCCC_DATA_TYPE[_tag[\"file_type\"]],\n            USINT.encode(int(_tag[\"file_number\"])),", ["D18.5"])
+M("C18", "mask-after-data", SLC, "        return bit_mask + _value", "        return _value + bit_mask", ["D18.6"])
+M("C18", "bit-data-ffff", SLC, '_value = bit_mask if value else b"\\x00\\x00"', '_value = b"\\xff\\xff" if value else b"\\x00\\x00"', ["D18.6"])
+M("C18", "reply-start-60", CONST, "SLC_REPLY_START = 61", "SLC_REPLY_START = 60", ["D18.7"])
+M("C18", "status-57", SLC, "        _status_code = int(data[58])", "        _status_code = int(data[57])", ["D18.7"])
+M("C18", "return-on-none", SLC, "        _tag = parse_tag(tag)\n        if _tag is None:\n            raise RequestError(f\"Error parsing the tag passed to read() - {tag}\")", "        _tag = parse_tag(tag)\n        if _tag is None:\n            return Tag(tag, None, None, \"bad tag\")", ["D18.8"])
+M("C18", "get-bit-shift", SLC, "    return (value & (1 << idx)) != 0", "    return (value & (1 << (idx + 1))) != 0", ["D18.6"])
+M("C18", "acc-offset-2", SLC, "unpack_func(data[new_value + 4 : new_value + 4 + data_size])", "unpack_func(data[new_value + 2 : new_value + 2 + data_size])", ["D18.7"])
+M("C18", "fnc-write-aa", CONST, 'SLC_FNC_WRITE = b"\\xab"', 'SLC_FNC_WRITE = b"\\xaa"', ["D18.5"])
+M("C18", "bfile-4096", SLC, "        and (0 <= int(t.group(\"element_number\")) <= 4095)", "        and (0 <= int(t.group(\"element_number\")) <= 9999)", ["D18.3"])
+T("C18", "shift-mask", SLC, "        element_number = bit_position // 16\n        sub_element = bit_position % 16", "        element_number = bit_position >> 4\n        sub_element = bit_position & 15")
+T("C18", "sub-via-floor", SLC, "        sub_element = bit_position % 16", "        sub_element = bit_position - (bit_position // 16) * 16")
